@@ -1,7 +1,7 @@
 (* C11 — proofs about Model.C11_Topo, for every cell list and every slot table. *)
 From Coq Require Import List Arith ZArith Lia Bool Sorted Permutation.
 Import ListNotations.
-Require Import Base.C11_Unique Model.C11_Topo.
+Require Import Base.C11_Unique Base.Corr Model.C11_Topo.
 
 (* ------------------------------------------------------------------ list plumbing *)
 Lemma nth_firstn_lt {A} n : forall (l : list A) k d, k < n -> nth k (firstn n l) d = nth k l d.
@@ -582,4 +582,100 @@ Proof.
     subst e0. exists f, es, s. rewrite R0, Nat2Z.id. repeat split; try assumption.
     + apply boundary_facets_spec. split; [now rewrite L1 | exact Hm1].
     + now symmetry.
+Qed.
+
+(* ------------------------------------------------------------------ f2e numbers mesh.edges (triangular facets) *)
+Lemma same2_perm a b : same2 a b = true -> Permutation a b.
+Proof.
+  unfold same2. intros H. apply orb_true_iff in H. destruct H as [H|H]; apply nats_eqb_eq in H; subst.
+  - apply Permutation_refl.
+  - apply Permutation_sym, Permutation_rev.
+Qed.
+
+Lemma slotv_compose fs b c : (forall i, In i b -> i < length fs) -> slotv b (slotv fs c) = slotv (compose fs b) c.
+Proof.
+  intros H. unfold slotv, compose. rewrite map_map. apply map_ext_in. intros i Hi.
+  now rewrite (nth_map_d _ fs i 0 0) by (now apply H).
+Qed.
+
+Lemma isort_slotv_perm ix ix' c : Permutation ix ix' -> isort (slotv ix c) = isort (slotv ix' c).
+Proof. intros H. apply isort_of_perm. unfold slotv. now apply Permutation_map. Qed.
+
+Lemma isort_swap x y : isort [x; y] = isort [y; x].
+Proof. apply isort_of_perm. apply perm_swap. Qed.
+
+Definition tri_pairs (q : list nat) : list (list nat) := map (fun b => isort (slotv b q)) [[0; 1]; [1; 2]; [0; 2]].
+
+Lemma perm3 (a b c : nat) q : Permutation [a; b; c] q ->
+  q = [a; b; c] \/ q = [a; c; b] \/ q = [b; a; c] \/ q = [b; c; a] \/ q = [c; a; b] \/ q = [c; b; a].
+Proof.
+  intros H. pose proof (Permutation_length H) as L. destruct q as [|x [|y [|z [|w q]]]]; simpl in L; try discriminate.
+  assert (Ha : In a [x; y; z]) by (eapply Permutation_in; [exact H | now left]).
+  simpl in Ha. destruct Ha as [->|[->|[->|[]]]].
+  - apply Permutation_cons_inv in H. apply Permutation_length_2_inv in H. destruct H as [H|H]; inversion H; subst; auto 8.
+  - assert (H' : Permutation [a; b; c] [a; x; z]) by (eapply Permutation_trans; [exact H | apply perm_swap]).
+    apply Permutation_cons_inv in H'. apply Permutation_length_2_inv in H'. destruct H' as [H'|H']; inversion H'; subst; auto 8.
+  - assert (H' : Permutation [a; b; c] [a; x; y]).
+    { eapply Permutation_trans; [exact H|]. eapply Permutation_trans; [apply perm_skip, perm_swap | apply perm_swap]. }
+    apply Permutation_cons_inv in H'. apply Permutation_length_2_inv in H'. destruct H' as [H'|H']; inversion H'; subst; auto 8.
+Qed.
+
+(* the three vertex pairs of a triangle do not depend on the order of its vertices *)
+Lemma tri_pairs_perm q q' x : length q = 3 -> Permutation q q' -> In x (tri_pairs q) -> In x (tri_pairs q').
+Proof.
+  intros L P. destruct q as [|a [|b [|c [|d q]]]]; simpl in L; try discriminate.
+  Opaque isort.
+  destruct (perm3 a b c q' P) as [->|[->|[->|[->|[->| ->]]]]]; unfold tri_pairs, slotv; simpl;
+    rewrite ?(isort_swap b a), ?(isort_swap c b), ?(isort_swap c a); tauto.
+  Transparent isort.
+Qed.
+
+Lemma in_keys C idx x : In x (keys C idx) <-> exists ix c, In ix idx /\ In c C /\ x = isort (slotv ix c).
+Proof.
+  unfold keys, raw_keys. rewrite in_map_iff. split.
+  - intros [k [Hx Hk]]. apply in_flat_map in Hk. destruct Hk as [ix [Hix Hk]]. apply in_map_iff in Hk.
+    destruct Hk as [c [Hk Hc]]. exists ix, c. subst. now repeat split.
+  - intros [ix [c [Hix [Hc ->]]]]. exists (slotv ix c). split; [reflexivity|]. apply in_flat_map. exists ix.
+    split; [exact Hix|]. apply in_map_iff. now exists c.
+Qed.
+
+Lemma in_entities' C idx x : In x (entities true C idx) <-> In x (keys C idx).
+Proof. rewrite entities_true. apply (uniq_in _ lex_cmp lex_cmp_eq). Qed.
+
+Theorem f2e_numbers_mesh_edges cells facet_idx edge_idx bnd :
+  bnd = [[0; 1]; [1; 2]; [0; 2]] ->
+  Forall (fun fs => length fs = 3) facet_idx ->
+  compose_ok facet_idx bnd edge_idx = true ->
+  entities true (entities true cells facet_idx) bnd = entities true cells edge_idx.
+Proof.
+  intros Hb Hlen Hok. apply entities_ext. intros x.
+  unfold compose_ok in Hok. apply andb_true_iff in Hok. destruct Hok as [Ok1 Ok2].
+  rewrite forallb_forall in Ok1, Ok2. rewrite Forall_forall in Hlen.
+  assert (Htp : forall q, In x (map (fun b => isort (slotv b q)) bnd) <-> In x (tri_pairs q)) by (intros q; rewrite Hb; reflexivity).
+  rewrite !in_keys. split.
+  - intros [b [F [Hbin [HF ->]]]]. apply in_entities', in_keys in HF. destruct HF as [fs [c [Hfs [Hc ->]]]].
+    assert (L : length (isort (slotv fs c)) = 3) by (rewrite isort_length; unfold slotv; rewrite map_length; now apply Hlen).
+    assert (Hin : In (isort (slotv b (isort (slotv fs c)))) (tri_pairs (slotv fs c))).
+    { apply (tri_pairs_perm (isort (slotv fs c)) (slotv fs c)); [exact L | apply Permutation_sym, isort_perm|].
+      apply Htp. apply in_map_iff. now exists b. }
+    apply Htp in Hin. apply in_map_iff in Hin. destruct Hin as [b' [Heq Hb']].
+    specialize (Ok1 fs Hfs). rewrite forallb_forall in Ok1. specialize (Ok1 b' Hb'). apply andb_true_iff in Ok1.
+    destruct Ok1 as [Bnd Ex]. rewrite forallb_forall in Bnd. apply existsb_exists in Ex. destruct Ex as [es [Hes Hsame]].
+    exists es, c. split; [exact Hes|]. split; [exact Hc|]. rewrite <- Heq.
+    rewrite slotv_compose by (intros i Hi; apply Nat.ltb_lt; now apply Bnd).
+    apply isort_slotv_perm. now apply same2_perm.
+  - intros [es [c [Hes [Hc ->]]]]. specialize (Ok2 es Hes). apply existsb_exists in Ok2. destruct Ok2 as [fs [Hfs Ex]].
+    apply existsb_exists in Ex. destruct Ex as [b' [Hb' Hsame]].
+    assert (Bnd : forall i, In i b' -> i < length fs).
+    { specialize (Ok1 fs Hfs). rewrite forallb_forall in Ok1. specialize (Ok1 b' Hb'). apply andb_true_iff in Ok1.
+      destruct Ok1 as [Bnd _]. rewrite forallb_forall in Bnd. intros i Hi. apply Nat.ltb_lt. now apply Bnd. }
+    assert (E1 : isort (slotv es c) = isort (slotv b' (slotv fs c))).
+    { rewrite slotv_compose by exact Bnd. apply isort_slotv_perm, Permutation_sym. now apply same2_perm. }
+    assert (L : length (slotv fs c) = 3) by (unfold slotv; rewrite map_length; now apply Hlen).
+    assert (Hin : In (isort (slotv es c)) (tri_pairs (isort (slotv fs c)))).
+    { apply (tri_pairs_perm (slotv fs c) (isort (slotv fs c))); [exact L | apply isort_perm|].
+      apply Htp. apply in_map_iff. exists b'. split; [now symmetry | exact Hb']. }
+    apply Htp in Hin. apply in_map_iff in Hin. destruct Hin as [b [Heq Hbin]].
+    exists b, (isort (slotv fs c)). split; [exact Hbin|]. split; [|now symmetry].
+    apply in_entities', in_keys. exists fs, c. now repeat split.
 Qed.
